@@ -254,10 +254,10 @@ theorem auditResponse_rejected (hm : Hm) (sc : Spec.Server.Scan) (kn : List Octe
 
 /-- the audit's clause "answered normally" (the response to the request without its TSIG RR being
     `plain`), as a proposition on the decoded response -/
-def AnsweredNormally (d : Spec.DMsg) (udp cmp : Bool) (plain : Resp) : Prop :=
+def AnsweredNormally (d : Spec.DMsg) (udp cmp : Bool) (tl lim : Nat) (plain : Resp) : Prop :=
   ∀ pb pd, plain = .bytes pb → Spec.specDecodeMsg pb = some pd →
     (d.tc = true → udp = true ∧ Spec.Server.noData d = true) ∧
-    (d.tc = false → pd.tc = false → cmp = true →
+    (d.tc = false → pd.tc = false → cmp = true → pb.size + tl ≤ lim → (pd.rcode = 2 → d.rcode = 2) →
       d.rcode = pd.rcode ∧ d.aa = pd.aa ∧ sameMultiset (d.an.map rrKey) (pd.an.map rrKey) = true ∧
       sameMultiset (d.ns.map rrKey) (pd.ns.map rrKey) = true ∧
       subMultiset (plainRrs d.ar) (plainRrs pd.ar) = true)
@@ -283,7 +283,8 @@ theorem auditResponse_authenticated (hm : Hm) (sc : Spec.Server.Scan) (kn : List
           { keyName := rkn, algName := rf.algName, timeSigned := rf.timeSigned, fudge := rf.fudge,
             error := rf.error, other := rf.other } f.mac))
     (hother : rf.other = []) (htime : rf.timeSigned = now)
-    (hdata : AnsweredNormally d udp cmp plain) :
+    (hdata : AnsweredNormally d udp cmp ((canonName kn).length + 10 + (canonName f.algName).length + 16 +
+      (outputSizeOf f.algName).getD 0 + 0) (if udp then sc.limitUdp else 65535) plain) :
     (auditResponse hm sc ⟨kn, f, pre, .authenticated, key⟩ now udp reqId cmp (.bytes b) plain).1 = [] := by
   unfold auditNeed auditLimit at hfit
   have hx := ext_zero (d.ar.filter (fun r => r.ty = 41)) (fun x hx => by
@@ -318,8 +319,10 @@ theorem auditResponse_authenticated (hm : Hm) (sc : Spec.Server.Scan) (kn : List
               cases cmp with
               | false => simp [htc', hptc']
               | true =>
-                obtain ⟨f1, f2, f3, f4, f5⟩ := d2 htc' hptc' rfl
-                simp [htc', hptc', f1, f2, f3, f4, f5]
+                simp [htc', hptc']
+                intro h1 h2
+                obtain ⟨f1, f2, f3, f4, f5⟩ := d2 htc' hptc' rfl (by omega) h2
+                exact ⟨⟨f1, f2⟩, f3, f4, f5⟩
   · simp only [Bool.not_eq_true', decide_eq_false_iff_not, Classical.not_not]; exact hfit
 
 end QV.ServerScan
